@@ -47,3 +47,17 @@ Example C20_pool_run_example :
     [EDecode 0; EDecode 0; EAcquire 0; EAcquire 1; EDiscard 0; ERelease 0; EDecode 0; EShoot 1; ERelease 1; EAcquire 0; EShoot 0])
   = Some [Discarded; Shot 8; Shot 9].
 Proof. vm_compute. reflexivity. Qed.
+
+(* "each entry once": for a file whose lines are pairwise different (tags, say) and instances that follow the program of
+   instance.Run (acquire; shoot OR discard, once; release) in any interleaving, no line is sent twice *)
+Theorem C20_line_sent_at_most_once : forall (A : Type) (input : list A), NoDup input ->
+  forall (evs : list ev) (v : vstate A), disciplined evs = true -> vrun (vinit input) evs = Some v ->
+  NoDup (shots_of (vs_out v)).
+Proof. exact sent_at_most_once. Qed.
+Print Assumptions C20_line_sent_at_most_once.
+
+(* non-vacuity: the events of the examples are disciplined and defined *)
+Example C20_disciplined_example :
+  disciplined double_release_events = true /\
+  option_map (@vs_out nat) (vrun (vinit [1; 2; 3; 4]) double_release_events) = Some [Discarded; Shot 2; Shot 3].
+Proof. split; vm_compute; reflexivity. Qed.
